@@ -188,7 +188,8 @@ def parse_valgrind(errtxt):
                     if fm:
                         fn = fm.group(1)
                         if not (fn.startswith("mem") or fn.startswith("__") or fn.startswith("_mm")):
-                            if HARNESS_FUNC_RE.match(fn) or fn in ("op_exec", "hash_bytes", "fill_buf", "mix64"):
+                            if HARNESS_FUNC_RE.match(fn) or fn in ("op_exec", "hash_bytes", "fill_buf", "mix64") or \
+                                    re.search(r"\((p_C\d+|common|ops|oracle|lib|q120h|roalloc|main)\.c:\d+\)", lines[j]):
                                 in_harness = True
                                 break
                             func = fn
